@@ -79,6 +79,30 @@ ADDED = {
 }
 
 
+# round 11
+UNW = "; every third native job makes every third guarded call of each thread from a destructor that runs while the thread unwinds (thread::panicking() is true inside the library)"
+ADDED11 = {
+    "C03": "; a client with a handler on a handler-less queuing sink over a refusing sink (the client's handler hears nothing); a handler that panics once (the next failing quiet sends are reported)",
+    "C05": "; the public writer over std::io::BufWriter / LineWriter with small buffers (byte-stream oracle)",
+    "C06": "; the public writer over std's own writers; flushes made by the queue's own thread from its error handler; a wrapper that panics over a metric behind a queue",
+    "C07": "; spy histories whose receiver goes away midway (every later write fails and says so); sinks dropped with lines buffered and the channel full while a reader starts 30 ms later",
+    "C08": "; 70 000 (thorough: 2^20 + 60 000) queued metrics released at once: one at a time, each producer's order",
+    "C09": "; the last handle of a queue let go on another queue's thread; a forced window after the stop signal (the dropper held until the queue's thread is gone): the wrapped sink is never destroyed by the dropping thread; miri_time: a bounded queue idles for a virtual hour before its last drop",
+    "C10": "; every third blocked-sink race has another caller stuck in the wrapped sink's blocked flush()",
+    "C11": "; every fifth job with an unwritable standard error",
+    "C12": "; a quarter of the socket runs with 100-200 threads",
+    "C13": "; a stream listener / regular file / dead socket / nothing at a Unix sink's path; the application's own handle of the socket still sends after the sink is gone",
+    "C15": "; queues over the crate's own sinks (Nop, spy, buffered spy) and a failing sink, capacities unbounded / 0 / 1 / 3 / 64: submitted = Ok emits, drained = submitted, queued = 0 at rest",
+    "C16": "; failures of metrics an error handler itself sent through a queue (second queue, own queue); a handler configured twice",
+    "C17": "; tag and key arguments of types that coerce to &str; a rejected global client whose destructor uses the macros",
+    "C18": "; values that panic in their destructor when turned down (only that set may unwind); the scheduler leaves a thread alone that the holder blocks for real and reports an all-blocked state",
+    "C19": "; W5: a wrapper that panics over a metric on the queue's thread gives the buffered sink no reason to write",
+    "C20": "; public Display / Debug types formatted with width, fill, alignment, sign and precision flags",
+}
+for _p in ["C%02d" % i for i in range(1, 21)]:
+    ADDED[_p] = ADDED.get(_p, "") + ADDED11.get(_p, "") + UNW
+
+
 def meta(prop, **kw):
     if prop in ADDED and "rule" in kw:
         kw["rule"] = kw["rule"] + ADDED[prop]
